@@ -52,6 +52,11 @@ def instances(tier):
                 out.append({"name": f"roundtrip_{kind}_{dist}_h{steps}", "func": "run_roundtrip", "kwargs": {"kind": kind, "dist": dist, "steps": steps}})
     # azimuths that are not listed in ascending order (legitimate: HvsrAzimuthal(hvsrs, [90, 30]))
     out.append({"name": "roundtrip_azimuthal_descending_azimuths", "func": "run_roundtrip", "kwargs": {"kind": "azimuthal", "dist": "lognormal", "steps": 1, "azimuths": [90.0, 30.0]}})
+    # a search range set on the object, then the rejection algorithm run with its default range (it searches the peaks again)
+    for kind in ("azimuthal", "traditional"):
+        for r in (0, 1, 2):
+            out.append({"name": f"roundtrip_{kind}_range{r}_then_fdwra_default_range", "func": "run_roundtrip",
+                        "kwargs": {"kind": kind, "dist": "lognormal", "steps": 2, "script": [[0, r], [1]], "nf": 4}})
     out.append({"name": "azimuth_header_regex", "func": "run_regex", "kwargs": {}})
     return out
 
@@ -101,12 +106,12 @@ def inner(h):
     return h.hvsrs if hasattr(h, "hvsrs") else [h]
 
 
-def step(ctx, h, kind, k):
-    """one history step chosen by the solver-independent fork"""
+def step(ctx, h, kind, k, script=None):
+    """one history step chosen by the solver-independent fork (or prescribed by `script`)"""
     WR = L()["window_rejection"]
-    choice = ctx.choose(3 if kind != "diffuse_field" else 1, tag=f"step{k}")
+    choice = ctx.choose(3 if kind != "diffuse_field" else 1, tag=f"step{k}") if script is None else script[k][0]
     if choice == 0:
-        r = RANGES[1 + ctx.choose(3, tag=f"rng{k}")]
+        r = RANGES[1 + (ctx.choose(3, tag=f"rng{k}") if script is None else script[k][1])]
         h.update_peaks_bounded(search_range_in_hz=r)
         return f"range{r}"
     if choice == 1:
@@ -139,14 +144,15 @@ def same_value(a, b):
     return float(a) == float(b)
 
 
-def run_roundtrip(rep, tier, kind, dist, steps, azimuths=None):
+def run_roundtrip(rep, tier, kind, dist, steps, azimuths=None, script=None, nf=None):
     Ld = L()
     IO = Ld["object_io"]
-    nw, nf = (3, 3) if kind == "traditional" else (2, 3)
+    nw, nf0 = (3, 3) if kind == "traditional" else (2, 3)
+    nf = nf or nf0
 
     def run(ctx):
         h, amps = build(ctx, kind, nw, nf, azimuths)
-        hist = [step(ctx, h, kind, k) for k in range(steps)]
+        hist = [step(ctx, h, kind, k, script) for k in range(steps)]
         if kind != "diffuse_field" and any(int(np.sum(x.valid_window_boolean_mask)) < 2 for x in inner(h)):
             raise OutsideClaim("fewer than two accepted windows")
         cap = Capture()
